@@ -439,8 +439,8 @@ fn pw_strings(cx: &mut Ctx, idx: &mut u64) {
                 let m = if rng.chance(1, 2) { *rng.pick(&["8", "16", "64", "1024"]) } else { *rng.pick(&nums) };
                 let t = if rng.chance(1, 2) { *rng.pick(&["1", "2", "3"]) } else { *rng.pick(&nums) };
                 let p = if rng.chance(3, 4) { "1" } else { *rng.pick(&nums) };
-                let sl = *rng.pick(&[0usize, 1, 2, 3, 10, 11, 22, 43, 86]);
-                let hl = *rng.pick(&[0usize, 1, 2, 21, 22, 43, 44, 86, 171]);
+                let sl = if rng.chance(1, 2) { rng.range(0, 30) } else { *rng.pick(&[0usize, 1, 2, 3, 10, 11, 22, 43, 86]) };
+                let hl = if rng.chance(1, 2) { rng.range(0, 30) } else { *rng.pick(&[0usize, 1, 2, 21, 22, 43, 44, 86, 171]) };
                 let s = format!("${}$v={}$m={},t={},p={}${}${}", alg, v, m, t, p, b64(&mut rng, sl), b64(&mut rng, hl));
                 pw_case(cx, &s, "grammar", hash_ok);
             }
@@ -649,6 +649,51 @@ pub fn run(cx: &mut Ctx) {
             cx.cover("stream_tag_byte", &format!("{}", tag));
             total(cx, "crypto_secretstream_xchacha20poly1305_pull", &c, "authentic_any_tag", &k, e_stream_pull, 64 * c.len() + (1 << 20));
             total(cx, "DryocStream::pull/pull_to_vec", &c, "authentic_any_tag", &k, e_stream_obj, 64 * c.len() + (1 << 20));
+        }
+    }
+
+    // (b') authentic and forged stream messages presented to pull states at every counter class
+    //      (fresh, mid-range, 0xfffffffe, 0xffffffff via the verif_hooks constructor): the step over the
+    //      32-bit counter wrap must not panic either
+    for (ci, c0) in [1u32, 0x0100_0000, 0xffff_fffe, 0xffff_ffff].into_iter().enumerate() {
+        for tag in [0u8, 1, 2, 3, 0x82] {
+            for mlen in [0usize, 5, 64] {
+                idx += 1;
+                if !cx.mine(idx) {
+                    continue;
+                }
+                let mut rng = cx.rng.fork(idx);
+                let (kk, mut nn) = k.sstate.verif_parts();
+                nn[..4].copy_from_slice(&c0.to_le_bytes());
+                let msg = rng.bytes(mlen);
+                cx.key(&format!("counter {} {} {}", c0, tag, mlen));
+                cx.cover("stream_counter_class", ["fresh", "midrange", "0xfffffffe", "0xffffffff"][ci]);
+                cx.eval();
+                let marker = format!("stream push+pull at counter {:#x} tag {} len {}", c0, tag, mlen);
+                let r = guard(&marker, || {
+                    // two messages so that 0xfffffffe also crosses the wrap
+                    let mut push = ss::State::verif_from_parts(kk, nn);
+                    let mut pull = ss::State::verif_from_parts(kk, nn);
+                    let mut opull: DryocStream<Pull> = DryocStream::verif_from_state(ss::State::verif_from_parts(kk, nn));
+                    for step in 0..2 {
+                        let mut c = vec![0u8; mlen + 17];
+                        let _ = ss::crypto_secretstream_xchacha20poly1305_push(&mut push, &mut c, &msg, None, tag);
+                        let mut m = vec![0u8; mlen];
+                        let mut t = 0u8;
+                        // a forged copy first (must be Err, not a panic), then the authentic one
+                        let mut bad = c.clone();
+                        bad[step % (mlen + 17)] ^= 0x40;
+                        let _ = ss::crypto_secretstream_xchacha20poly1305_pull(&mut pull, &mut m, &mut t, &bad, None);
+                        let _ = ss::crypto_secretstream_xchacha20poly1305_pull(&mut pull, &mut m, &mut t, &c, None);
+                        let _ = opull.pull_to_vec(&bad, None);
+                        let _ = opull.pull_to_vec(&c, None);
+                    }
+                });
+                if let Err(p) = r {
+                    let kind = if p.msg.contains("overflow") { "arithmetic_overflow" } else { "panic" };
+                    cx.violation(&format!("C04|secretstream(counter_class)|{}", kind), json!({"counter":format!("{:#x}", c0),"tag":tag,"msglen":mlen,"panic":p.msg}));
+                }
+            }
         }
     }
 
